@@ -1,5 +1,6 @@
 import FqModel.Serial.Msgpack
 import FqModel.Serial.Cbor
+import FqModel.Serial.Bson
 /-
   C16 — the source texts the serialization models were transliterated from and validated against
   (hand-written; compared with the REGENERATED texts of FqModel/Gen/SerialTables.lean in Props/C16.lean).
@@ -116,5 +117,23 @@ def cborConsts : List (String × Nat) := [
   ("majorTypeBytes", Cbor.majorTypeBytes), ("majorTypeUTF8", Cbor.majorTypeUTF8), ("majorTypeArray", Cbor.majorTypeArray),
   ("majorTypeMap", Cbor.majorTypeMap), ("majorTypeSematic", Cbor.majorTypeSematic),
   ("majorTypeSpecialFloat", Cbor.majorTypeSpecialFloat), ("breakMarker", Cbor.breakMarker.toNat)]
+
+def bsonDocument : List String := ["{", "size", ":=", "d.FieldS32(\"size\")", "d.FramedFn((size-4)*8,", "func(d", "*decode.D)", "{", "d.FieldArray(\"elements\",", "func(d", "*decode.D)", "{", "for", "d.BitsLeft()", ">", "8", "{", "d.FieldStruct(\"element\",", "func(d", "*decode.D)", "{", "typ", ":=", "d.FieldU8(\"type\",", "elementTypeMap)", "d.FieldUTF8Null(\"name\")", "switch", "typ", "{", "case", "elementTypeDouble:", "d.FieldF64(\"value\")", "case", "elementTypeString:", "length", ":=", "d.FieldU32(\"length\")", "d.FieldUTF8NullFixedLen(\"value\",", "int(length))", "case", "elementTypeDocument:", "d.FieldStruct(\"value\",", "decodeBSONDocument)", "case", "elementTypeArray:", "d.FieldStruct(\"value\",", "decodeBSONDocument)", "case", "elementTypeBinary:", "length", ":=", "d.FieldS32(\"length\")", "d.FieldU8(\"subtype\")", "d.FieldRawLen(\"value\",", "length*8)", "case", "elementTypeUndefined:", "case", "elementTypeObjectID:", "d.FieldRawLen(\"value\",", "12*8)", "case", "elementTypeBoolean:", "d.FieldU8(\"value\")", "case", "elementTypeDatetime:", "d.FieldS64(\"value\")", "case", "elementTypeNull:", "d.FieldValueAny(\"value\",", "nil)", "case", "elementTypeRegexp:", "d.FieldUTF8Null(\"value\")", "d.FieldUTF8Null(\"options\")", "case", "elementTypeJavaScript:", "length", ":=", "d.FieldS32(\"length\")", "d.FieldUTF8NullFixedLen(\"value\",", "int(length))", "case", "elementTypeInt32:", "d.FieldS32(\"value\")", "case", "elementTypeTimestamp:", "d.FieldU64(\"value\")", "case", "elementTypeInt64:", "d.FieldS64(\"value\")", "case", "elementTypeDecimal128:", "d.FieldRawLen(\"value\",", "128)", "case", "elementTypeMinKey:", "d.FieldValueAny(\"value\",", "nil)", "case", "elementTypeMaxKey:", "d.FieldValueAny(\"value\",", "nil)", "default:", "d.FieldRawLen(\"value\",", "d.BitsLeft())", "}", "})", "}", "})", "d.FieldU8(\"terminator\",", "d.UintValidate(0))", "})", "}"]
+
+def bsonDecode : List String := ["{", "d.Endian", "=", "decode.LittleEndian", "decodeBSONDocument(d)", "return", "nil", "}"]
+
+def bsonJq : List String := ["def", "_bson_torepr:", "def", "_f:", "if", ".type", "==", "null", "or", ".type", "==", "\"array\"", "then", "(", ".value.elements", "|", "map(_f)", ")", "elif", ".type", "==", "\"document\"", "then", "(", ".value.elements", "|", "map({key:", ".name,", "value:", "_f})", "|", "from_entries", ")", "elif", ".type", "==", "\"boolean\"", "then", ".value", "!=", "0", "else", ".value", "|", "tovalue", "end;", "(", "{type:", "\"document\",", "value:", ".}", "|", "_f", ");"]
+
+/-- bson.go element type constants as the model's encoder/decoder use them -/
+def bsonConsts : List (String × Nat) := [
+  ("elementTypeDouble", (Bson.typeByte (.double 0)).toNat), ("elementTypeString", (Bson.typeByte (.str [])).toNat),
+  ("elementTypeDocument", (Bson.typeByte (.doc [] 0)).toNat), ("elementTypeArray", (Bson.typeByte (.arr [] 0)).toNat),
+  ("elementTypeBinary", (Bson.typeByte (.bin 0 [])).toNat), ("elementTypeUndefined", (Bson.typeByte .undefined).toNat),
+  ("elementTypeObjectID", (Bson.typeByte (.objectid [])).toNat), ("elementTypeBoolean", (Bson.typeByte (.bool 0)).toNat),
+  ("elementTypeDatetime", (Bson.typeByte (.datetime 0)).toNat), ("elementTypeNull", (Bson.typeByte .null).toNat),
+  ("elementTypeRegexp", (Bson.typeByte (.regexp [] [])).toNat), ("elementTypeJavaScript", (Bson.typeByte (.js [])).toNat),
+  ("elementTypeInt32", (Bson.typeByte (.int32 0)).toNat), ("elementTypeTimestamp", (Bson.typeByte (.timestamp 0)).toNat),
+  ("elementTypeInt64", (Bson.typeByte (.int64 0)).toNat), ("elementTypeDecimal128", (Bson.typeByte (.decimal128 [])).toNat),
+  ("elementTypeMinKey", (Bson.typeByte .minkey).toNat), ("elementTypeMaxKey", (Bson.typeByte .maxkey).toNat)]
 
 end FqModel.Serial.Pins
